@@ -171,8 +171,12 @@ pub fn c11(t: &dyn TypeOps, cx: &mut Cx) {
         // file-backed entry points that do not zero-extend: load_full and mmap
         if vi < 2 {
             let path = format!("{}/c11-{:016x}.bin", crate::checks3::scratch(), hash64(&[cx.type_id.as_bytes()]));
-            for k in 0..bytes.len() {
-                std::fs::write(&path, &bytes[..k]).unwrap();
+            // what a crash while STORING leaves behind: every strict prefix of the file that
+            // `store` itself writes (which is the serialized stream, C08)
+            let stored = match t.store(i, &path) { Out::Ok(()) => std::fs::read(&path).unwrap_or_default(), _ => bytes.clone() };
+            let stored = if stored.is_empty() { bytes.clone() } else { stored };
+            for k in 0..stored.len() {
+                std::fs::write(&path, &stored[..k]).unwrap();
                 for (loader, name) in [(0u8, "load_full"), (3u8, "mmap")] {
                     cx.evals += 1;
                     cx.transitions += 1;
@@ -477,6 +481,44 @@ pub fn c14(t: &dyn TypeOps, cx: &mut Cx, dmax: usize) {
                     Out::Ok(x) if *x == sval => cx.outcome("large-chunked-ok"),
                     o => cx.violate(&format!("large-value-fragmented-{}", if matches!(o, Out::Ok(_)) { "wrong-value".to_string() } else { o.class() }), json!({"value_index": i, "chunk": chunk, "alternate_eintr": eintr, "len": lb.len(), "observed": o.describe()})),
                 }
+            }
+        }
+    }
+    // a reader that fails LATE in a long sequence (more than 64 / 256 items, zero-copy or deep):
+    // an error, nothing built so far dropped twice (a double drop of owning items aborts the
+    // worker, which is reported against this type), nothing leaked
+    for k in [crate::dom::REPEAT | 70, crate::dom::REPEAT | 300] {
+        let Some(i) = first_growing(t, n, k) else { continue };
+        let Out::Ok((lb, sval)) = t.ser_scaled(i, k) else { continue };
+        let mut probe = ScriptReader::new(&lb, Script::default());
+        if !matches!(t.full_script(&mut probe), Out::Ok(x) if x == sval) { cx.violate("long-sequence-fault-free-read-differs", json!({"value_index": i, "items_repeated": k & !crate::dom::REPEAT})); continue; }
+        let np = probe.point;
+        let mut pts: Vec<usize> = vec![np.saturating_sub(1), np.saturating_sub(2), np.saturating_sub(3), np * 3 / 4, np / 2, np / 4];
+        pts.extend((0..np).step_by((np / cx.tier.pick(12, 60)).max(1)));
+        pts.sort(); pts.dedup();
+        for p in pts {
+            for alt in [3u8, 4] {
+                cx.evals += 1;
+                cx.transitions += 1;
+                let script = Script { dev: vec![(p, alt)] };
+                let before = live_heap();
+                let mut rd = ScriptReader::new(&lb, script.clone());
+                let o = t.full_script(&mut rd);
+                let hard = rd.hard_fail;
+                drop(rd);
+                // what the deserializer itself left behind: the outcome (a value or an error
+                // string built by the harness) is released first
+                let (klass, detail, okv) = (o.class(), o.describe(), matches!(&o, Out::Ok(x) if *x == sval));
+                let is_ok = matches!(o, Out::Ok(_));
+                let is_read_error = matches!(&o, Out::Err(e) if e == "ReadError");
+                drop(o);
+                let after = live_heap();
+                let leaked = after.0 - before.0 - (klass.capacity() + detail.capacity()) as i64;
+                cx.outcome(&format!("late-failure-{}", klass));
+                if !((is_read_error && hard) || (okv && !hard)) {
+                    cx.violate(&format!("late-reader-failure-{}", if is_ok { "value".to_string() } else { klass.clone() }), json!({"value_index": i, "items_repeated": k & !crate::dom::REPEAT, "point": p, "of": np, "answer": format!("{:?}", R_ALTS[alt as usize]), "observed": detail}));
+                }
+                if leaked != 0 { cx.violate("late-reader-failure-leaks-heap", json!({"value_index": i, "items_repeated": k & !crate::dom::REPEAT, "point": p, "of": np, "leaked_bytes": leaked})); }
             }
         }
     }
